@@ -1260,7 +1260,7 @@ func init() {
 	register("c17", func(args []string) int {
 		f := parseFlags("c17", args)
 		rep := newReport("C17", f)
-		rep.Rule = "random producer/consumer/reopen histories (as C05); after EVERY operation Pending(), Active(), Reader.Available() (inside a read transaction) and the running totals of the Flushed / ACKed callbacks are compared with the event history of the slice-of-events model (flushed - acked, visible - consumed, totals); plus fill-to-error / drain cycles on bounded files (failing flushes that are retried). Non-trivial: distinct op statistics."
+		rep.Rule = "random producer/consumer/reopen histories (as C05; every 4th one on a queue whose header sits at an offset of a root page shared with a second queue); after EVERY operation Pending(), Active(), Reader.Available() (inside a read transaction) and the running totals of the Flushed / ACKed callbacks are compared with the event history of the slice-of-events model (flushed - acked, visible - consumed, totals); plus fill-to-error / drain cycles on bounded files (failing flushes that are retried). Non-trivial: distinct op statistics."
 		if f.replay != "" {
 			rp, err := loadPQReplay(f.replay)
 			if err != nil {
@@ -1288,7 +1288,13 @@ func init() {
 			hseed := r.Int63()
 			hr := rand.New(rand.NewSource(hseed))
 			cfg := cfgs[hr.Intn(len(cfgs))]
-			prof := pqengine.Profile{Steps: 20 + hr.Intn(100), MaxEvent: 3 * int(cfg.PageSize), Boundary: false, Reopen: true, PageSize: int(cfg.PageSize), AckPct: 8}
+			if i%4 == 3 {
+				// the queue header at an offset inside a root page shared with a second queue (its header at offset 0,
+				// 2 events): every queue counts its own history only
+				cfg.RootOff = 64 * uintptr(2+i%9)
+				rep.count("queue-header-at-an-offset-of-the-root-page", 1)
+			}
+			prof := pqengine.Profile{Steps: 20 + hr.Intn(100), MaxEvent: 3 * int(cfg.PageSize), Boundary: false, Reopen: true, PageSize: int(cfg.PageSize), AckPct: 8, Empty: i%3 == 1}
 			ops := pqengine.History(hr, prof)
 			checks := 0
 			e := runPQHistory(rep, cfg, ops, hseed, "c17", func(e *pqengine.Engine) {
